@@ -49,6 +49,7 @@ type recReader struct {
 	mode      string // det | fail | replay
 	seed      int
 	failAt    int // Read call index (0-based) that fails; -1 never
+	chunk     int // > 0: a Read delivers at most chunk octets (short reads, as a real source may)
 	stream    []byte
 	pos       int
 	reads     int
@@ -60,6 +61,9 @@ func (r *recReader) Read(b []byte) (int, error) {
 	r.reads++
 	if r.failAt >= 0 && idx >= r.failAt {
 		return 0, errors.New("verif: random source failure")
+	}
+	if r.chunk > 0 && len(b) > r.chunk {
+		b = b[:r.chunk]
 	}
 	for i := range b {
 		var v byte
@@ -90,6 +94,7 @@ func readerOf(spec J) *recReader {
 	if _, has := spec["failat"]; has {
 		r.failAt = gi(spec, "failat")
 	}
+	r.chunk = gi(spec, "chunk")
 	if r.mode == "replay" {
 		r.stream = gox(spec, "stream")
 	}
